@@ -80,6 +80,19 @@ def replay(chk, cases, want, sets_of=None):
                         chk.violation(dict(base, clause="Constructible", field="", detail={"raised": exc}),
                                       dedup=("Constructible", name, s, exc))
                     continue
+                if c["ph"] == "out_data" and not a.get("tl") and a.get("blocksize") and "WireFormat" in want:
+                    # TRANSFER LENGTH 0 with the caller's (larger) buffer handed over all the same: the CDB says 0
+                    try:
+                        K0 = cmds.klass(name)
+                        kw0 = {k: v for k, v in a.items() if not k.startswith("#")}
+                        kw0["data"] = cmds.pattern(a["blocksize"] * 2, 3)
+                        got0 = list(K0(cmds.opcode(name, s), **kw0).cdb)
+                    except Exception as ex:
+                        got0 = "raised " + type(ex).__name__
+                    if got0 != c["cdb"]:
+                        chk.violation(dict(base, clause="WireFormat", field="transfer length 0 with a data buffer",
+                                           detail={"expected": c["cdb"], "observed": got0}),
+                                      dedup=("WireFormat", name, s, "tl0data"))
                 got = list(cmd.cdb)
                 if got != c["cdb"]:
                     cl = "CdbLength" if len(got) != len(c["cdb"]) else "WireFormat"
@@ -130,6 +143,19 @@ def replay(chk, cases, want, sets_of=None):
                     e["rebuilt"] = 2
                     events.append(e)
                     n += 2
+                    # the command is executed (the transport fills the data-in buffer in place) and decoded: the
+                    # buffers it carries into a second execution are still the ones the CDB announces
+                    if len(cmd.datain) and hasattr(cmd, "unmarshall_datain"):
+                        for fill in (0, 0xFF):
+                            cmd.datain[:] = bytes([fill]) * len(cmd.datain)
+                            try:
+                                cmd.unmarshall(**({"evpd": a["evpd"]} if name == "Inquiry" and "evpd" in a else {}))
+                            except Exception:
+                                pass
+                            e = cmds.event(name, s, a, c["ph"], cmd, "", passed)
+                            e["rebuilt"] = 3
+                            events.append(e)
+                            n += 1
                 except Exception as ex:
                     chk.violation({"cls": name, "set": s, "args": a, "clause": "ByteBuffers", "field": "",
                                    "detail": {"raised": type(ex).__name__}, "what": "cmd.cdb = cmd.build_cdb(...) on a built command"},
